@@ -510,9 +510,9 @@ class TypesOracle(walkers.DagWalker):
         return frozenset([formula.symbol_type()])
 
     @walkers.handles(op.FUNCTION)
-    def walk_function(self, formula: FNode, **kwargs) -> FrozenSet[PySMTType]:
+    def walk_function(self, formula: FNode, args: List[FrozenSet[PySMTType]], **kwargs) -> FrozenSet[PySMTType]:
         ftype = cast(types._FunctionType, formula.function_name().symbol_type())
-        return frozenset([ftype.return_type] + list(ftype.param_types))
+        return frozenset(chain([ftype.return_type], ftype.param_types, *args))
 
     @walkers.handles(op.QUANTIFIERS)
     def walk_quantifier(self, formula: FNode, args: List[FrozenSet[PySMTType]], **kwargs) -> FrozenSet[PySMTType]:
